@@ -196,6 +196,16 @@ def _inject(ch):
         desc = {"target": tname, "size": tsize, "field": which, "bad": badv}
         pos = {"start": 1, "stop": 2, "step": 3}[which]
         fs, ts_ = ["s", bs, be, bt], ["s", gs, ge, gt]
+        if via == "literal" and ch.bool():
+            # the offending bound is a literal, ANOTHER bound of the same slice is a let with a
+            # harmless value: still known (and refused) at parsing
+            other = ch.pick([k_ for k_ in ("start", "stop", "step") if k_ != which])
+            opos = {"start": 1, "stop": 2, "step": 3}[other]
+            for p_ in (fault, twin):
+                p_["lets"].append(["zy", [None, gs, ge, gt][opos]])
+            fs[opos] = "zy"
+            ts_[opos] = "zy"
+            desc = dict(desc, other_bound_is_let=other)
         if via != "literal":
             fault["lets"].append(["zz", badv if via == "let" else goodv])
             twin["lets"].append(["zz", goodv])
